@@ -66,6 +66,26 @@ type RunCtx struct {
 	bufs  *bufTracker
 	Verbose bool
 	priv    any
+	held    []heldBuf // reply buffers handed to harness callers (never released by them)
+}
+
+type heldBuf struct {
+	b   *[]byte
+	who string
+}
+
+// checkHeld reports a reply buffer that was released to the pool by somebody
+// else after it had been returned to its caller.
+func (rc *RunCtx) checkHeld() {
+	if rc.bufs == nil || raceEnabled {
+		return
+	}
+	for _, h := range rc.held {
+		if rc.bufs.released[h.b] {
+			rc.Fail("reply_buffer_released_after_return", "%s: the reply buffer returned to the caller was later released to the pool by the transport (the caller still owns it)", h.who)
+			return
+		}
+	}
 }
 
 // Fail records the first violation of the run and aborts the simulation.
